@@ -37,6 +37,7 @@ Record Cleared (st st' : state) (removed : list node) : Prop := mkCleared {
   cl_refs : s_refs st' = s_refs st;
   cl_stack : s_stack st' = s_stack st;
   cl_refstack : s_refstack st' = s_refstack st;
+  cl_taint : s_taint st' = s_taint st;
   cl_data : forall i, lookup_data (s_data st') i =
                       if mem_node (node_of i) removed then None else lookup_data (s_data st) i;
   cl_inputs : forall i, mem_item i (s_inputs st') =
@@ -92,6 +93,11 @@ Proof.
   - intros e. rewrite filter_In, andb_true_iff, !negb_true_iff. tauto.
 Qed.
 
+Lemma fold_clear_trace_taint ns : forall st, s_taint (fold_left on_clear_trace ns st) = s_taint st.
+Proof.
+  induction ns as [|n ns IH]; intros st; simpl; [reflexivity|]. rewrite IH. destruct n; reflexivity.
+Qed.
+
 Lemma clear_with_descs_Cleared st n :
   mem_node n (s_nodes st) = true ->
   Cleared st (clear_with_descs st n) (descs_with st n).
@@ -103,6 +109,7 @@ Proof.
   destruct (fold_clear_trace_fields removed st2) as (A1 & A2 & A3 & A4 & A5 & A6 & A7 & A8 & A9 & A10).
   destruct (g_remove_nodes_spec st removed) as (GN & GE).
   constructor; try assumption.
+  - rewrite fold_clear_trace_taint. reflexivity.
   - intros i. rewrite A5. apply GN.
   - intros e. rewrite A6. apply GE.
   - intros r j Hin Hj. rewrite A7. unfold st2, rg_remove_with_referred, rg_remove_items; simpl.
@@ -132,7 +139,7 @@ Theorem Quiet_cleared st st' removed :
   (forall a b, In a removed -> In (a, b) (s_edges st) -> In b removed) ->
   Quiet st'.
 Proof.
-  intros ((HI & C & SO) & Hs & Hrs & Hok) CL Hclosed.
+  intros ((HI & C & SO) & Hs & Hrs) CL Hclosed.
   assert (Hdefs : defs_of st' = defs_of st).
   { unfold defs_of. now rewrite (cl_cells _ _ _ CL), (cl_refs _ _ _ CL). }
   assert (Hcached : forall c, is_cached st' c = is_cached st c).
@@ -161,12 +168,10 @@ Proof.
     - intros r _. now rewrite Hdefs.
     - intros r Hr. now rewrite Hdefs.
     - intros i Hi. now apply Hinp.
-    - exact Hok.
     - intros m Hm Hni Hpi _. destruct (lookup_data (s_data st) m) as [v|] eqn:El; [|now elim Hm].
       destruct (cv_reads _ C m v El Hni) as (f & ds & A & B).
       exists f, v, ds. split; [exact A|]. eapply Hsafe; eauto. }
-  split; [|split; [now rewrite (cl_stack _ _ _ CL)|split; [now rewrite (cl_refstack _ _ _ CL)|
-             now rewrite (cl_cells _ _ _ CL)]]].
+  split; [|split; [now rewrite (cl_stack _ _ _ CL)|now rewrite (cl_refstack _ _ _ CL)]].
   assert (C' : Cov st').
   { constructor.
     - intros i Hi. apply Hhas in Hi as (Hi & Hr). apply (cl_nodes _ _ _ CL). split; [|exact Hr].
@@ -202,7 +207,8 @@ Proof.
       destruct (cv_items _ C i Hi) as (A & B). rewrite Hcached. split; [exact A|].
       rewrite Hs in B. destruct B as [B|[]]. left. apply Hhas. auto.
     - rewrite (cl_stack _ _ _ CL), (cl_refstack _ _ _ CL). exact (cv_refs _ C).
-    - intros c Hc. apply (cl_nodes _ _ _ CL) in Hc as (Hc & _). rewrite Hcached. now apply (cv_obj _ C). }
+    - intros c Hc. apply (cl_nodes _ _ _ CL) in Hc as (Hc & _). rewrite Hcached. now apply (cv_obj _ C).
+    - rewrite (cl_taint _ _ _ CL), (cl_stack _ _ _ CL). exact (cv_taint _ C). }
   split; [|split; [exact C'|]].
   - apply Inv_of_Cov; [|exact C'].
     intros i Hm. rewrite (cl_inputs _ _ _ CL) in Hm. apply andb_true_iff in Hm as (Hm & Hr).
